@@ -466,6 +466,17 @@ Theorem C06_limit_unobservable_below_file : forall lim fx ig ov h s,
 Proof. exact file_limit_unobservable. Qed.
 Print Assumptions C06_limit_unobservable_below_file.
 
+(* for EVERY history (also above the limit) the limited store ends in the state of the unlimited
+   store run on the history without its oversized unnamed pushes and answers the remaining
+   operations alike: every theorem about file_step applies to the filtered history *)
+Theorem C06_limit_is_filter_file : forall lim fx ig ov h s,
+  fst (runl (file_step_lim lim fx ig ov) s h) =
+  fst (runf (file_step fx ig ov) s (filter (fun o => negb (over_limit lim ig o)) h)) /\
+  filter (fun x => match x with LLimit => false | LOut _ => true end) (snd (runl (file_step_lim lim fx ig ov) s h)) =
+  map LOut (snd (runf (file_step fx ig ov) s (filter (fun o => negb (over_limit lim ig o)) h))).
+Proof. exact file_limit_is_filter. Qed.
+Print Assumptions C06_limit_is_filter_file.
+
 (* the conditions of [over_limit] are the guards in the Go source, regenerated on every run *)
 Theorem C06_limit_guards_from_source :
   limited_Push_guards = [(b "fmt.Errorf"%string, [b "expected.Size > ls.PushLimit"%string]);
